@@ -528,7 +528,7 @@ func (e *Engine) Generate(fname string, sweep bool) (*FuncResult, error) {
 		if rp.blk != nil {
 			blk = rp.blk.Index
 		}
-		r.Covers = append(r.Covers, &Oblig{Name: fmt.Sprintf("vac:unreachable-return:%s#%d", shortFunc(fname), i+1), Kind: "vacuity", Func: shortFunc(fname), Reach: rp.st.reach, Goal: False, NAssume: len(g.assumes), Blk: blk})
+		r.Covers = append(r.Covers, &Oblig{Name: fmt.Sprintf("vac:unreachable-return:%s#%d", shortFunc(fname), i+1), Kind: "vacuity", Func: shortFunc(fname), Reach: rp.st.reach, Goal: False, NAssume: rp.nAssume, Blk: blk})
 	}
 	for n := range g.notes {
 		r.Notes = append(r.Notes, n)
@@ -609,4 +609,21 @@ func (r *FuncResult) computeAncestors(fn *ssa.Function) {
 			}
 		}
 	}
+}
+
+// namedType resolves "pkg/path.Name" to the named type.
+func (e *Engine) namedType(full string) types.Type {
+	i := strings.LastIndex(full, ".")
+	if i < 0 {
+		return nil
+	}
+	p := e.typesPkg(full[:i])
+	if p == nil {
+		return nil
+	}
+	o := p.Scope().Lookup(full[i+1:])
+	if o == nil {
+		return nil
+	}
+	return o.Type()
 }
